@@ -100,7 +100,7 @@ def run(ctx, rep):
                         if c[1] == 'vm::VM::push':
                             pushed = deref(r['path'].env, c[2][1])
                             for st_ in subtrees(pushed):
-                                if st_[0] == 'unop':
+                                if st_ and st_[0] == 'unop':
                                     res.add((st_[1], st_[3]))
                                 if st_[0] == 'call' and st_[1].split('::')[-1] in ('checked_neg', 'wrapping_neg', 'overflowing_neg'):
                                     res.add(('Neg', 'isize'))
